@@ -25,13 +25,33 @@ class Fun2(pytrans.Fun):
         if isinstance(e.func, ast.Name) and e.func.id == "getattr" and len(e.args) == 2 and not e.keywords:
             args = [self.expr(a, locals_) for a in e.args]
             return self.with_args(args, lambda a: ("(py_getattr %s %s)" % (a[0], a[1]), False))
+        if isinstance(e.func, ast.Attribute) and e.func.attr == "values" and not e.args and not e.keywords:
+            return self.with_args([self.expr(e.func.value, locals_)], lambda a: ("(py_values %s)" % a[0], False))
         return super().call(e, locals_)
+
+    def assigned(self, stmts):
+        names = super().assigned(stmts)
+        for s in stmts:
+            for node in ast.walk(s):
+                # d[k] = v rebinds d (the value is immutable in the model)
+                if isinstance(node, ast.Assign) and len(node.targets) == 1 and isinstance(node.targets[0], ast.Subscript) \
+                        and isinstance(node.targets[0].value, ast.Name) and node.targets[0].value.id not in names:
+                    names.append(node.targets[0].value.id)
+        return names
 
     def block(self, stmts, locals_, k):
         if not stmts:
             return k(locals_)
         s, rest = stmts[0], stmts[1:]
         cont = lambda loc: self.block(rest, loc, k)
+        if isinstance(s, ast.Assign) and len(s.targets) == 1 and isinstance(s.targets[0], ast.Subscript) \
+                and isinstance(s.targets[0].value, ast.Name) and s.targets[0].value.id in locals_ \
+                and not isinstance(s.targets[0].slice, ast.Slice):
+            # d[k] = v
+            d = s.targets[0].value.id
+            args = [self.expr(s.targets[0].slice, locals_), self.expr(s.value, locals_)]
+            code = self.lift(self.with_args(args, lambda a: ("(py_setitem %s %s %s)" % (ident(d), a[0], a[1]), False)))
+            return "(do %s <- %s; %s)" % (ident(d), code, cont(locals_))
         if isinstance(s, ast.Continue):
             if not self.loop_tups:
                 raise Unsupported("continue outside a loop")
@@ -51,27 +71,34 @@ class Fun2(pytrans.Fun):
             return "(py_catch %s %s (fun _ => %s) (fun %s => %s))" % (
                 code, self.exc_of(h.type), self.block(h.body, locals_, cont), ident(n), cont(loc))
         if isinstance(s, ast.For):
-            # as Fun.block, but `continue` is allowed in the body (break / return are not)
-            if s.orelse or not isinstance(s.target, ast.Name):
+            # as Fun.block, but `continue` is allowed in the body (break / return are not);
+            # `for k, v in d.items()` binds both names
+            pair = None
+            if isinstance(s.target, ast.Tuple) and len(s.target.elts) == 2 and all(isinstance(x, ast.Name) for x in s.target.elts) \
+                    and isinstance(s.iter, ast.Call) and isinstance(s.iter.func, ast.Attribute) and s.iter.func.attr == "items" \
+                    and not s.iter.args and not s.iter.keywords:
+                pair = (s.target.elts[0].id, s.target.elts[1].id)
+            if s.orelse or not (isinstance(s.target, ast.Name) or pair):
                 raise Unsupported("for shape")
             for node in ast.walk(s):
                 if isinstance(node, (ast.Break, ast.Return)):
                     raise Unsupported("break/return in for")
-                if isinstance(node, ast.For) and node is not s:
-                    raise Unsupported("nested for")
-            it = self.expr(s.iter, locals_)
+            it = self.expr(s.iter.func.value if pair else s.iter, locals_)
             state = [n for n in self.assigned(s.body) if n in locals_]
             tup = "(" + ", ".join(ident(n) for n in state) + ")" if len(state) != 1 else ident(state[0])
             if not state:
                 tup = "tt"
             pat = "'" + tup if len(state) > 1 else ("_" if not state else tup)
-            inner_loc = set(locals_) | {s.target.id}
+            inner_loc = set(locals_) | (set(pair) if pair else {s.target.id})
             self.loop_tups.append(tup)
             try:
                 body = self.block(s.body, inner_loc, lambda loc: "(Ok %s)" % tup)
             finally:
                 self.loop_tups.pop()
-            loop = lambda c: "(py_for %s %s (fun %s %s => %s))" % (c, tup, ident(s.target.id), pat if state else "_", body)
+            if pair:
+                loop = lambda c: "(py_for_items %s %s (fun %s %s %s => %s))" % (c, tup, ident(pair[0]), ident(pair[1]), pat if state else "_", body)
+            else:
+                loop = lambda c: "(py_for %s %s (fun %s %s => %s))" % (c, tup, ident(s.target.id), pat if state else "_", body)
             after = cont(locals_)
             code, pure = it
             if pure:
@@ -221,6 +248,21 @@ def gen3(repo):
     return "\n".join(out) + "\n"
 
 
+def gen5(repo):
+    """verify_threshold_constraints and reduce_chain_links (C05)"""
+    out = ["(* generated by tools/pytrans2.py from %s — do not edit *)" % repo,
+           "From InToto.Model Require Import Base Json PyLib Glob PyLibGlob.", ""]
+    vt = pytrans.load(repo, "in_toto/verifylib.py")
+    for name in ("verify_threshold_constraints", "reduce_chain_links"):
+        fn = pytrans.find_function(vt, name)
+        tr = Fun2({}, {})
+        tr.data_attrs = ("steps", "threshold", "name", "materials", "products")
+        code, _ = tr.function(fn)
+        out.append("(* in_toto/verifylib.py : %s, line %d *)" % (name, fn.lineno))
+        out.append(code)
+    return "\n".join(out) + "\n"
+
+
 def main():
     repo, outdir = sys.argv[1], sys.argv[2]
     os.makedirs(outdir, exist_ok=True)
@@ -231,6 +273,14 @@ def main():
         sys.exit(1)
     with open(os.path.join(outdir, "Fun2.v"), "w") as f:
         f.write(text)
+    if "--thresholds" in sys.argv[3:]:
+        try:
+            text5 = gen5(repo)
+        except (Unsupported, SyntaxError, OSError) as e:
+            print("TRANSLATOR-ERROR Fun5.v: %s" % e)
+            sys.exit(1)
+        with open(os.path.join(outdir, "Fun5.v"), "w") as f:
+            f.write(text5)
     if "--items" in sys.argv[3:]:
         try:
             text3 = gen3(repo)
